@@ -43,16 +43,17 @@ def shards(tier, seed):
             out.append({'sub': 'full', 'alpha': 'S23', 'prefix': a + b, 'lens': list(range(1, full - 1)),
                         'bounds': f'all strings of length <= {full} over 23 chars'})
     if tier == 'quick':
-        # rotating block of the length-6 space: 4 of the 529 two-character prefixes
+        # rotating block of the length-6 space: 2 of the 529 two-character prefixes
         k = len(SIGMA) ** 2
-        for i in range(4):
-            j = (seed * 4 + i) % k
+        for i in range(2):
+            j = (seed * 2 + i) % k
             a, b = SIGMA[j // len(SIGMA)], SIGMA[j % len(SIGMA)]
             out.append({'sub': 'block6', 'alpha': 'S23', 'prefix': a + b, 'lens': [4],
-                        'bounds': 'length 6 over 23 chars: 4 of 529 prefix blocks chosen by VERIF_SEED (each block exhaustive)'})
-        for a in SIGMA8:
-            for b in SIGMA8:
-                out.append({'sub': 'len7_8', 'alpha': 'S8', 'prefix': a + b, 'lens': [4, 5], 'bounds': 'all strings of length 6-7 over 8 chars (alignment/string/escape characters)'})
+                        'bounds': 'length 6 over 23 chars: 2 of 529 prefix blocks chosen by VERIF_SEED (each block exhaustive)'})
+        for i, a in enumerate(SIGMA8):
+            for j, b in enumerate(SIGMA8):
+                lens = [4, 5] if (i + j + seed) % 2 == 0 else [4]
+                out.append({'sub': 'len7_8', 'alpha': 'S8', 'prefix': a + b, 'lens': lens, 'bounds': 'all strings of length 6 and a VERIF_SEED-chosen half of length 7 over 8 chars (alignment/string/escape characters)'})
     else:
         for a in SIGMA14:
             for b in SIGMA14:
